@@ -109,6 +109,18 @@ def ensure_facts(repo="/repo", use_cache=True, extra_args=(), tag=""):
         lock.close()
 
 
+def code_hash():
+    """hash of the analysis code itself (keys derived-table caches)"""
+    h = hashlib.sha256()
+    d = os.path.join(VERIF, "sa")
+    for fn in sorted(os.listdir(d)):
+        if fn.endswith(".py"):
+            with open(os.path.join(d, fn), "rb") as fh:
+                h.update(fn.encode())
+                h.update(fh.read())
+    return h.hexdigest()[:12]
+
+
 class Body:
     __slots__ = ("path", "kind", "file", "line", "line_hi", "body_hi", "argc", "locals",
                  "blocks", "mx", "vis", "is_const", "generic", "self_ty", "impl", "parent",
